@@ -36,7 +36,7 @@ def load_prop(prop):
 
 def generic_files(prop):
   from . import generic
-  return generic.ext_anchors(prop)
+  return sorted(set(generic.ext_anchors(prop)) | set(generic.EXTRA_FILES.get(prop, [])))
 
 
 def shared_specs(prop):
@@ -44,7 +44,7 @@ def shared_specs(prop):
   property is anchored in.  They are run in violation-only mode: a finding is reported (the shared mechanism is broken, and
   this property is anchored in it), anything else they have to say (held, inconclusive, floor) belongs to their own property."""
   from . import generic
-  files = set(generic.ext_anchors(prop))
+  files = set(generic_files(prop))
   ref = reference.load()
   out = []
   for rid, v in sorted(ref.items()):
